@@ -36,7 +36,14 @@ def set_compared_loop(s, ctx):
         chain, top = k8._consumer_chain(s)
         if all(c in ("Iterator::filter", "Iterator::map", "Iterator::filter_map", "Iterator::cloned", "Iterator::copied") for c, _n in chain):
             N = Norm(s.fn)
-            for p in reversed(s.parents):
+            parents = list(s.parents)
+            # the adaptor chain bound to a local that is used exactly once (as the argument of the extend): the same consumer
+            for st in [p for p in parents if p.get("k") == "SLet" and "init" in p and k8.strip_eq(p["init"], top) and p["pat"].get("k") == "Bind"]:
+                from ..core.ir import walk_with_parents
+                uses = [(x, ps) for x, ps in walk_with_parents(s.fn["body"]) if x.get("k") == "Path" and x.get("r") == "local" and x.get("id") == st["pat"]["id"]]
+                if len(uses) == 1:
+                    top, parents = uses[0][0], list(uses[0][1])
+            for p in reversed(parents):
                 if p.get("k") == "MethodCall" and cshort(p.get("callee", "")) == "Extend::extend" and any(k8.strip_eq(a, top) for a in p["args"]):
                     root = _root_local(p["recv"])
                     rec = N.defs.get(root)
